@@ -153,6 +153,8 @@ def check_semantics(ck, opts, label, fuel=4000, per_program_timeout=150, subset=
         raise Infra("corpus: no program could be exported and built")
     bad, exp, st, unspecat, skipped = validate_each(recs, [s for s, _ in owner], fuel, per_program_timeout)
     cov["evaluation_too_expensive"] = [owner[j][1] for j in skipped]
+    cov["slowest_evaluations_s"] = dict(sorted(st.get("per_program", {}).items(), key=lambda kv: -kv[1])[:8])
+    ck.cov["tlc_runs"].append(dict(name="DDPRunTrace " + label, lines=st["lines"], wall_s=round(st["wall"], 1), processes=len(owner)))
     owner = [o for j, o in enumerate(owner) if j not in skipped]
     starts = [s for s, _ in owner]
     import bisect
@@ -182,44 +184,53 @@ def check_semantics(ck, opts, label, fuel=4000, per_program_timeout=150, subset=
     return cov
 
 
-def validate_each(recs, starts, fuel, timeout):
-    """one TLC process per program (prog event + its obs events); a program whose evaluation by TLC exceeds the budget is skipped.
+def validate_each(recs, starts, fuel, timeout, group=6):
+    """TLC processes over groups of programs (prog event + its obs events each); a group that exceeds its budget is split into single
+    programs, a single program that exceeds the budget is skipped.
     -> (bad global indices, {idx: (sig, text)}, stats, {prog start idx: output prefix before the unspecified point}, set of skipped program numbers)"""
     import tempfile, time
     bounds = list(zip(starts, starts[1:] + [len(recs)]))
     bad, exp, unspecat, skipped = [], {}, {}, set()
-    stats = dict(generated=0, distinct=0, lines=0, wall=0.0)
+    stats = dict(generated=0, distinct=0, lines=0, wall=0.0, per_program={})
 
-    def one(j):
-        a, b = bounds[j]
+    def one(js):
+        a, b = bounds[js[0]][0], bounds[js[-1]][1]
         wd = tempfile.mkdtemp(prefix="corp.", dir=vlib.scratch())
         vlib.write_ndjson(os.path.join(wd, "trace.ndjson"), recs[a:b])
         try:
-            r = vlib.tlc("DDPRunTrace", "t.cfg", ["sem", "common", "syntax"], workdir=wd, workers=1, timeout=timeout,
+            r = vlib.tlc("DDPRunTrace", "t.cfg", ["sem", "common", "syntax"], workdir=wd, workers=1, timeout=timeout * (1 + len(js) // 3),
                          files={"t.cfg": semrun.T_CFG % (fuel, "FALSE")}, gcthreads=2, heap="3g")
         except Infra as e:
             shutil.rmtree(wd, ignore_errors=True)
             if "timed out" in str(e) or "resource error" in str(e):
-                return j, None
+                return js, None
             raise
         shutil.rmtree(wd, ignore_errors=True)
-        return j, r
+        return js, r
     t0 = time.time()
-    with ThreadPoolExecutor(max_workers=14) as ex:
-        for j, r in ex.map(one, range(len(bounds))):
-            a, b = bounds[j]
-            if r is None:
-                skipped.add(j)
-                continue
-            marks = vlib.parse_marked(r.out)
-            if r.rc != 0 or "lines" not in marks or vlib.ints_of(marks["lines"][-1]) != [b - a]:
-                raise Infra("DDPRunTrace did not consume the whole trace of %s:\n%s" % (recs[a].get("id"), r.out[-4000:]))
-            bad += [a + x - 1 for x in vlib.ints_of(marks["bad"][-1])]
-            for ln, v in semrun.parse_exp(r.out).items():
-                exp[a + ln - 1] = v
-            for ln, v in semrun.parse_unspecat(r.out).items():
-                unspecat[a + ln - 1] = v
-            stats["generated"] += r.generated; stats["distinct"] += r.distinct; stats["lines"] += b - a
+    groups = [list(range(i, min(i + group, len(bounds)))) for i in range(0, len(bounds), group)]
+    while groups:
+        nxt = []
+        with ThreadPoolExecutor(max_workers=14) as ex:
+            for js, r in ex.map(one, groups):
+                a, b = bounds[js[0]][0], bounds[js[-1]][1]
+                if r is None:
+                    if len(js) == 1:
+                        skipped.add(js[0])
+                    else:
+                        nxt += [[j] for j in js]
+                    continue
+                marks = vlib.parse_marked(r.out)
+                if r.rc != 0 or "lines" not in marks or vlib.ints_of(marks["lines"][-1]) != [b - a]:
+                    raise Infra("DDPRunTrace did not consume the whole trace of %s:\n%s" % (recs[a].get("id"), r.out[-4000:]))
+                bad += [a + x - 1 for x in vlib.ints_of(marks["bad"][-1])]
+                for ln, v in semrun.parse_exp(r.out).items():
+                    exp[a + ln - 1] = v
+                for ln, v in semrun.parse_unspecat(r.out).items():
+                    unspecat[a + ln - 1] = v
+                stats["generated"] += r.generated; stats["distinct"] += r.distinct; stats["lines"] += b - a
+                stats["per_program"]["%s (+%d)" % (recs[a].get("id"), len(js) - 1)] = round(r.wall, 1)
+        groups = nxt
     stats["wall"] = time.time() - t0
     return sorted(bad), exp, stats, unspecat, skipped
 
